@@ -107,6 +107,13 @@ Token *stub_paste(Token *lhs, Token *rhs) {
   e->kind = TK_EOF; e->file = lhs->file;
   return t;
 }
+// find_arg(): same contract on the packed spelling (its strlen/strncmp through a symbolic Token pointer
+// is what makes cbmc 6.11 crawl)
+MacroArg *stub_find_arg(MacroArg *args, Token *tok) {
+  for (MacroArg *ap = args; ap; ap = ap->next)
+    if (tok->val == verif_spell(ap->name)) return ap;
+  return NULL;
+}
 Token *stub_stringize(Token *hash, Token *arg) {
   Token *t = calloc(1, sizeof(Token)), *e = calloc(1, sizeof(Token));
   t->kind = TK_STR; t->file = hash->file; t->next = e;
